@@ -819,6 +819,12 @@ class Interp:
         if name == "FloorDiv":
             if sym:
                 q = to_pw(a) / to_pw(b)
+                if q.is_leaf() and q.leaf.is_poly():
+                    p = poly.as_poly(q.leaf)
+                    from .extlib import ExtLib
+                    if all(c.denominator == 1 for c in p.t.values()) and all(
+                            at[0] == "s" and at[1] in ExtLib.INT_SYMBOLS for at in p.atoms()):
+                        return q
                 return poly.fn("floor", q)
             r = Fraction(a) // Fraction(b)
             return int(r)
